@@ -36,6 +36,8 @@ def owners(op, clause, e=None, nbuf0=3):
         o |= {"C10"}                     # a view rebuilt from the bytes does not return what was just assigned: the assignment itself failed
     if op == "copy" and clause.startswith(("ref:", "copy-ref:", "fmt:ref-", "fmt:union-", "fmt:null-union")):
         o |= {"C08", "C09"}              # the references of a copy are references: valid, in their buffer, null stays null
+    if op in ("new", "copy") and clause.startswith("ref:new-target-"):
+        o |= {"C05"}          # a referent written by the construction does not decode to the value it was built from / is malformed
     if op == "new" and (clause.startswith("read:") or clause.startswith("ref:new-target-value")):
         o |= {"C01"}          # a nested accessor of the object just built does not return the value it was built from
     return o
@@ -145,6 +147,10 @@ SUITE = [
     X.struct(I8, X.ref(X.arr(F64, [3])), X.ref(X.struct(F64, I16)), X.ref(X.arr(F64, [3]))),          # references to statically sized targets
     X.arr(X.ref(X.struct(I64, F64)), [-1]),
     X.struct(X.arr(X.ref(X.arr(I16, [2, 2])), [3]), X.STR),
+    X.struct(X.uref(_IN, X.arr(F64, [2])), X.uref(X.arr(F64, [2]), _IN), I8, X.uref(X.struct(I8), X.arr(F64, [2]), _IN)),     # unions sharing members at other positions
+    X.arr(X.struct(X.ref(X.arr(F64, [3])), I16), [-1]), X.struct(I8, X.arr(X.struct(X.ref(X.arr(I16, [2])), F64), [-1, 2])),     # items whose default may hold a referent
+    X.struct(I8, X.struct(F64, X.struct(I16, I64, X.arr(I8, [2])), I8), X.STR),        # static structs nested in static structs
+    X.arr(X.struct(I8, X.struct(I16, F64, X.struct(I8, I8))), [-1]),
     X.struct(I64, X.arr(F64, [-1]), X.arr(F64, [-1]), X.STR, X.STR),       # several dynamic fields of one type: same size, other distribution
     X.struct(X.arr(X.STR, [-1]), I8, X.arr(X.STR, [-1])),
 ]
@@ -407,7 +413,15 @@ def prog_pickle(w, rng):
     twins = w.pickle(group)
     if not twins:
         return
-    for _ in range(rng.randint(2, 6)):
+    again = rng.random() < 0.4
+    for step in range(rng.randint(2, 6)):
+        if again and step == 2:
+            # the same objects (now changed) - or their unpickled twins - go through pickle once more while the first copies are
+            # still in use: the new copies hold the CURRENT values and are independent of everything that exists
+            more = w.pickle(group if rng.random() < 0.6 else twins)
+            if not more:
+                return
+            twins = twins + more
         x = rng.random()
         side = rng.choice(group + twins)
         if x < 0.55:
@@ -496,6 +510,32 @@ def prog_view_copy(w, rng):
                 return
 
 
+_DEFAULTED = [
+    X.arr(X.struct(X.ref(X.arr(F64, [3])), I16), [-1]),
+    X.struct(I8, X.arr(X.struct(X.ref(X.arr(I16, [2])), F64), [-1, 2])),
+    X.arr(X.struct(I64, X.arr(F64, [2]), I8), [-1]),
+    X.struct(X.arr(X.struct(I16, X.ref(X.arr(F64, [3])), X.struct(I8, F64)), [-1]), X.STR),
+    X.struct(I64, X.arr(F64, [3]), X.ref(X.arr(F64, [3])), X.STR, X.struct(I8, X.arr(I16, [2]))),
+]
+
+
+def prog_defaults(w, rng):
+    """C01 / C05 / C03: struct classes with DECLARED defaults (xo.Field(type, default=...): scalars, static arrays, referents
+    built from default data); objects built from dictionaries that leave fields out, and arrays of structs built by length
+    (every item the default item, each with referents of its own), on used memory and next to live neighbours"""
+    w.ns.with_defaults = True
+    w.ns.no_default_p = 0.2
+    w.omit_p = 0.3
+    for n in range(rng.randint(2, 4)):
+        tx = rng.choice(_DEFAULTED)
+        k = w.new(tx, rng.randrange(2), dims_p=0.6 if n % 2 == 0 else 0.0, mindim=2)
+        if k is None:
+            return
+        if rng.random() < 0.4:
+            if w.set(rng.choice(list(w.handles)), allow=("null", "alias", "new")) is False and w.steps[-1].get("exc"):
+                return
+
+
 _MULTI = [
     X.struct(I64, X.arr(F64, [-1]), X.arr(F64, [-1]), X.STR, X.STR),
     X.struct(X.arr(X.STR, [-1]), I8, X.arr(X.STR, [-1])),
@@ -533,8 +573,8 @@ def prog_update(w, rng):
 
 
 PROGRAMS = {
-    "C01": lambda w, rng: (prog_repeat if rng.random() < 0.2 else prog_construct)(w, rng),
-    "C05": lambda w, rng: (prog_construct if rng.random() < 0.6 else prog_copy)(w, rng),      # copy-construction writes objects too
+    "C01": lambda w, rng: (prog_defaults if rng.random() < 0.08 else prog_repeat if rng.random() < 0.2 else prog_construct)(w, rng),
+    "C05": lambda w, rng: (prog_defaults if rng.random() < 0.08 else prog_construct if rng.random() < 0.6 else prog_copy)(w, rng),      # copy-construction writes objects too
     "C03": lambda w, rng: (prog_intlen if rng.random() < 0.06 else prog_err if rng.random() < 0.1 else (prog_construct if rng.random() < 0.4 else prog_set))(w, rng),
     "C06": lambda w, rng: (prog_construct if rng.random() < 0.2 else (prog_view_copy if rng.random() < 0.2 else (prog_update if rng.random() < 0.2 else (prog_set if rng.random() < 0.6 else prog_copy))))(w, rng),
     "C10": lambda w, rng: (prog_update if rng.random() < 0.1 else prog_set)(w, rng),
@@ -550,6 +590,8 @@ def make_history(pid, seed, index):
     rng = random.Random(f"{seed}:{pid}:{index}")
     w = World(rng)
     w.index = index
+    w.ns.with_defaults = (index % 4 == 3)       # a quarter of the histories declare defaults (xo.Field(type, default=...)) on their struct classes
+    w.ns.default_seed = index
     stopped = ""
     try:
         PROGRAMS[pid](w, rng)
@@ -721,6 +763,12 @@ def check(pid, argv=None):
             run.notes["t_handle_model"] = round(time.time() - t1, 1)
         if pid == "C09":
             hybrid_copies(run)
+            # the handle-cache model (spec/XoHandle.tla) for histories with copy-constructed handles: a write to either side of
+            # a copy that shows through the other side's handle is C09's as well (the stale-handle finding itself is C06's)
+            from . import handlemc
+            t1 = time.time()
+            handlemc.model_level(run, only=lambda key, m: key != handlemc.KNOWN_KEY and any(e["op"] == "copynew" for e in m["hist"]))
+            run.notes["t_handle_model"] = round(time.time() - t1, 1)
         n = COUNTS[run.tier]
         t1 = time.time()
         with C.memory_guard():
